@@ -8,6 +8,7 @@ import random
 from proto import A, dumps
 from run import Case
 import zoo
+from kernels_tie import optional_traverse as optional_obligation  # noqa: F401  (dfs / bfs / gather regenerated from node.py: optional bridge)
 
 PROPERTY = "C05"
 LEAN_MODULE = "PyOak.Props.C05All"
